@@ -51,6 +51,10 @@ type World struct {
 	Features []string          `json:"features,omitempty"`
 	Signed   []string          `json:"signed,omitempty"` // formats that have signature.key_file configured
 	KeyName  string            `json:"key_name,omitempty"`
+	// ExpectFail: formats for which this configuration is invalid by
+	// construction (format-specific collision / setting): their packaging
+	// must fail, everybody else's must be unaffected by that failure.
+	ExpectFail []string `json:"expect_fail,omitempty"`
 	// MTimeFixed: the package mtime is fixed through the mtime field or SOURCE_DATE_EPOCH.
 	MTimeFixed string `json:"mtime_fixed,omitempty"` // "", "field", "env"
 	MTime      int64  `json:"mtime,omitempty"`
@@ -173,6 +177,8 @@ type C12Plan struct {
 	GoMaxProcs int      `json:"gomaxprocs"`
 	SwitchP    float64  `json:"switch_p"`
 	Guided     bool     `json:"guided"`
+	Instr        bool    `json:"instr,omitempty"` // needs the ast-instrumented build
+	InstrSwitchP float64 `json:"instr_switch_p,omitempty"`
 	SchedSeed  uint64   `json:"sched_seed"`
 	Schedule   []Switch `json:"schedule,omitempty"` // replay: the recorded switch points
 	Replay     bool     `json:"replay,omitempty"`
